@@ -47,6 +47,9 @@ structure Quirks where
   blockhashErr : Bool := true
   /-- frames called from a static frame are not read-only themselves: their writes fail only when written back (spec: inherited) -/
   staticNotInherited : Bool := true
+  /-- SELFDESTRUCT naming the running contract itself does nothing (the contract and its balance stay; repair of a coin
+      loss, C01) — spec: the balance is burnt and the account removed -/
+  selfDestructSelfKeeps : Bool := true
   deriving Repr, Inhabited
 
 /-- the interpreter as it is (repaired since the first version of this record: the call output window and the call value
@@ -58,7 +61,7 @@ def Quirks.spec : Quirks :=
   { readBeyondErr := false, dataOffsetU64 := false, zeroLenGrows := false, noStackLimit := false, hugeOffsetNotOog := false,
     childExceptionAborts := false, callUnknownErr := false, callOutputWindow := false, queryUnknownErr := false,
     valueFailAborts := false, staticCallValue := false, callCreatesAccount := false, blockhashErr := false,
-    staticNotInherited := false }
+    staticNotInherited := false, selfDestructSelfKeeps := false }
 
 /-- ids of the deviation points (Frame.dev) -/
 def devName : Nat → String
@@ -66,7 +69,7 @@ def devName : Nat → String
   | 5 => "oversized_offset_panics" | 6 => "jump_dest_overflow_code"
   | 7 => "child_exception_aborts_parent" | 8 => "call_unknown_address" | 9 => "call_output_window"
   | 10 => "account_query_unknown_address" | 11 => "unpayable_call_aborts" | 12 => "static_call_value"
-  | 13 => "call_creates_empty_account" | 14 => "blockhash_out_of_range"
+  | 13 => "call_creates_empty_account" | 14 => "blockhash_out_of_range" | 15 => "selfdestruct_to_self_keeps_account"
   | _ => "unexplained"
 
 /-- a cost no gas allowance covers (specification mode: "this instruction runs out of gas") -/
@@ -475,8 +478,10 @@ def selfdestruct (env : Env) : M (Option ByteArray) := do
   let receiver := addrOf (← pop)
   useGas 1
   let s ← getF
-  if receiver ≤ 0xff || s.removed.contains receiver then pure none   -- outside the model: natives, re-use of a destroyed address
+  if env.q.selfDestructSelfKeeps && receiver == env.callee then pure (some .empty)
+  else if receiver ≤ 0xff || s.removed.contains receiver then pure none   -- outside the model: natives, re-use of a destroyed address
   else
+    if receiver == env.callee then noteDev 15
     let mut stop := false
     if (s.world.get receiver).isNone then
       useGas 1
